@@ -1,8 +1,105 @@
 /-
   Props/C03.lean — the balancer sends each request to a least-loaded open member.
-  (statements; proofs to be completed — see Proofs/HeapInv.lean)
+
+  Model: Model/Heap.lean (HeapBalancerSink with the FixUp-after-FixDown repair).  The system
+  invariant `Inv` (Proofs/HeapInv.lean: H1 index agreement, heap order on loads, load accounting,
+  down list, close discipline, membership) is preserved by every operation, for every legal
+  `random.randint` draw; from it the choice made by `get` and the executable specification
+  `specC03` follow.  Hypothesis throughout: fewer than 2^31−1 dispatches in the history.
 -/
-import ScalesModel.Proofs.HeapInv
+import ScalesModel.Proofs.HeapMisc
 namespace Scales.Heap
-theorem C03_placeholder : True := trivial
+
+theorem C03_inv_init : Inv HS.init := Inv_init
+
+theorem C03_inv_join (s : HS) (ep : Nat) (h : Inv s) : Inv (s.join ep) := Inv_join s h ep
+
+theorem C03_inv_leave (s : HS) (ep : Nat) (h : Inv s) : Inv (s.leave ep) := Inv_leave s h ep
+
+/-- a dispatch keeps the invariant as long as the dispatch counter stays below 2^31−1 -/
+theorem C03_inv_get (s : HS) (h : Inv s) (hb : s.reqs.length + 1 < 2147483647) : Inv (s.get noHook).1 :=
+  Inv_get s h hb
+
+/-- a completion keeps the invariant for every draw `j` the code may have made (1 ≤ j ≤ size
+    whenever `__Put` takes the idle branch; `j` is ignored otherwise) -/
+theorem C03_inv_put (s : HS) (r j : Nat) (h : Inv s)
+    (hj : ∀ nid, s.reqs[r]? = some (nid, false) → s.putDraws nid = true → 1 ≤ j ∧ j ≤ s.size) :
+    Inv (s.put r j) := Inv_put s h r j hj
+
+theorem C03_inv_chan (s : HS) (nid st : Nat) (h : Inv s) : Inv (s.setChan nid st) := Inv_setChan s h nid st
+
+/-- the invariant holds after every legal operation list with fewer than 2^31−1 dispatches -/
+theorem C03_inv_reachable (ops : List Op) (hok : opsOk HS.init ops = true) (hb : getCount ops < 2147483647) :
+    Inv (runOps HS.init ops) := by
+  apply Inv_run ops HS.init Inv_init hok
+  show 0 + getCount ops < maxReqs
+  unfold maxReqs; omega
+
+/-- the fuel given to the mark-down loop suffices: `__Get` returns through its regular exit, with
+    the root of the heap, which is Open or marked down; the invariant holds again, and after the
+    last scan no listed node is Open -/
+theorem C03_getLoop_fuel_suffices (s : HS) (h : Inv s) (hsz : 1 ≤ s.size) :
+    Inv (s.getLoop noHook (s.nodes.length + 1)).1 ∧
+    (s.getLoop noHook (s.nodes.length + 1)).2 = (s.getLoop noHook (s.nodes.length + 1)).1.idAt 1 ∧
+    (((s.getLoop noHook (s.nodes.length + 1)).1.node (s.getLoop noHook (s.nodes.length + 1)).2).chan = chOpen ∨
+      ((s.getLoop noHook (s.nodes.length + 1)).1.node (s.getLoop noHook (s.nodes.length + 1)).2).load ≥ 0) ∧
+    (∀ id ∈ (s.getLoop noHook (s.nodes.length + 1)).1.down,
+      ((s.getLoop noHook (s.nodes.length + 1)).1.node id).chan ≠ chOpen) := by
+  have gk := getLoop_ok s h hsz
+  exact ⟨gk.inv, gk.top, gk.ok, gk.scanned⟩
+
+/-- **least-loaded dispatch.**  `get` answers `noMembers` exactly when the heap is empty; otherwise
+    it answers a node of the heap (with its endpoint and the next dispatch number), and if any heap
+    node's channel is Open, the chosen node's channel is Open and its outstanding count is minimal
+    among the heap nodes with an Open channel. -/
+theorem C03_get_least_loaded (s : HS) (h : Inv s) :
+    ((s.get noHook).2 = GetRes.noMembers ↔ s.size = 0) ∧
+    (∀ id ep r, (s.get noHook).2 = GetRes.node id ep r →
+      InHeap s id ∧ ep = (s.node id).ep ∧ r = s.reqs.length ∧
+      ((∃ m, InHeap s m ∧ (s.node m).chan = chOpen) →
+        (s.node id).chan = chOpen ∧
+        ∀ m, InHeap s m → (s.node m).chan = chOpen → outOf s id ≤ outOf s m)) := by
+  by_cases hsz : s.size = 0
+  · rw [get_empty s hsz]
+    exact ⟨⟨fun _ => hsz, fun _ => rfl⟩, fun id ep r hc => by simp at hc⟩
+  · obtain ⟨nid, hres, hin, _, _, _, _, hch⟩ := get_facts s h hsz
+    rw [hres]
+    refine ⟨⟨fun hc => by simp at hc, fun hc => absurd hc hsz⟩, ?_⟩
+    intro id ep r hc
+    simp only [GetRes.node.injEq] at hc
+    obtain ⟨rfl, rfl, rfl⟩ := hc
+    exact ⟨hin, rfl, rfl, hch⟩
+
+/-- **C03, specification level.**  For every legal operation list (`opsOk`: completions name
+    existing dispatches, recorded draws are in range, channel flips name existing nodes) with
+    fewer than 2^31−1 dispatches, the history of the model satisfies the executable
+    specification `specC03`, the predicate the check evaluates on the implementation. -/
+theorem C03_model_satisfies_spec (ops : List Op) (hok : opsOk HS.init ops = true)
+    (hb : getCount ops < 2147483647) : specC03 () ((comp 3).modelTrace () ops) = Verdict.ok := by
+  apply spec_ok 3 ops HS.init {} 0 Inv_init Sim0_init PrevOk_init hok
+  show 0 + getCount ops < maxReqs
+  unfold maxReqs; omega
+
+/-- the same with the hypothesis predicate `wf` of the component, as the driver reports it -/
+theorem C03_wf_model_satisfies_spec (ops : List Op) (h : (comp 3).wf () ops = true) :
+    (comp 3).spec () ((comp 3).modelTrace () ops) = Verdict.ok := by
+  have h' : (opsOk HS.init ops && decide (getCount ops < 2147483647)) = true := h
+  rw [Bool.and_eq_true, decide_eq_true_eq] at h'
+  exact C03_model_satisfies_spec ops h'.1 h'.2
+
+/-! non-vacuity: the hypotheses hold on a concrete history with joins, a resurrection-free
+    dispatch sequence, an idle completion with a drawn slot, and a removal -/
+def c03Hist : List Op :=
+  [.join 7, .join 8, .join 9, .chan 0 2, .chan 1 2, .get, .get, .put 0 2, .leave 8, .get, .put 1 0]
+
+set_option maxRecDepth 8000 in
+example : (comp 3).wf () c03Hist = true := by
+  simp [comp, c03Hist, wfOps, opsOk, getCount, step, HS.join, HS.leave, HS.addSink, HS.removeSink, HS.findByEp,
+    HS.fixUp, HS.fixDown, HS.init, HS.size, HS.at, HS.idAt, HS.node, Node.lt, HS.swap, HS.setIndex, HS.setNode,
+    HS.setChan, HS.get, HS.getLoop, HS.scan, noHook, HS.put, HS.putNode, HS.putDraws, Idle, Penalty, chOpen]
+
+example : Inv HS.init := C03_inv_init
+example : ∃ s : HS, Inv s ∧ s.size = 1 := ⟨HS.init.join 7, C03_inv_join _ 7 C03_inv_init, by
+  simp [HS.join, HS.addSink, HS.fixUp, HS.init, HS.size]⟩
+
 end Scales.Heap
